@@ -20,6 +20,9 @@ type PropUnit struct {
 	Module string   `json:"module"` // dir under /repo, e.g. "dnsrocks" or "dnsrocks/go-cdb-mods"
 	Pkg    string   `json:"pkg"`    // ./dnsdata/rdb
 	Funcs  []string `json:"funcs"`
+	// Only: function key -> regexp; obligations of that function whose name does not match are not part of
+	// this property's claim (the same function may serve several properties with different clauses)
+	Only map[string]string `json:"only,omitempty"`
 }
 
 type BoundedSpec struct {
@@ -230,6 +233,20 @@ func cmdCheck(args []string) {
 					// a function under contract disappeared: its obligations cannot be regenerated
 					engineFaults = append(engineFaults, err.Error())
 					continue
+				}
+				if re, ok := u.Only[key]; ok {
+					rx, err := regexp.Compile(re)
+					if err != nil {
+						engineFaults = append(engineFaults, "bad filter for "+key+": "+err.Error())
+					} else {
+						var keep []*Obligation
+						for _, o := range fv.obls {
+							if rx.MatchString(o.Name) {
+								keep = append(keep, o)
+							}
+						}
+						fv.obls = keep
+					}
 				}
 				fvs = append(fvs, fv)
 			}
